@@ -234,12 +234,14 @@ encode route (slice/writer) and decode path (read-based / attempt+byte) vary per
             let lo = (sh as u32) << 17;
             for i in 0..(1u32 << 17) {
                 let size = (lo + i).wrapping_mul(0x2545F5).wrapping_add(0x1234) & 0x7FFFFF;
-                if alive {
-                    let op = OPS[(i % 7) as usize] ^ ((i >> 3) as u16 & 0x0F0F);
-                    alive = step(&mut rep, &mut conn, &mut rng, size, op);
+                for j in 0..4u32 {
+                    if alive {
+                        let op = OPS[((i + j) % 7) as usize] ^ (((i >> 3) as u16 & 0x0F0F).rotate_left(j * 3));
+                        alive = step(&mut rep, &mut conn, &mut rng, size, op);
+                    }
                 }
             }
-            rep.distinct_extra += 1u64 << 17;
+            rep.distinct_extra += 4u64 << 17;
             rep.count("sizes_enumerated", 1 << 17);
             let mut sizes: Vec<u32> = Vec::new();
             for b in BOUNDARY {
@@ -311,7 +313,7 @@ encode route (slice/writer) and decode path (read-based / attempt+byte) vary per
         }
         // 3. random headers, fresh connections with sequences of 1..200 headers
         let nrand: u64 = match tier {
-            "quick" => 2_000_000 / shards as u64,
+            "quick" => 8_000_000 / shards as u64,
             "thorough" => 20_000_000 / shards as u64,
             _ => 40,
         };
